@@ -962,6 +962,9 @@ namespace awkward {
     size_t i = 0;
     for (;  i < others.size();  i++) {
       ContentPtr other = others[i];
+      if (VirtualArray* raw = dynamic_cast<VirtualArray*>(other.get())) {
+        other = raw->array();
+      }
       if (dynamic_cast<IndexedArray32*>(other.get())  ||
           dynamic_cast<IndexedArrayU32*>(other.get())  ||
           dynamic_cast<IndexedArray64*>(other.get())  ||
@@ -973,10 +976,11 @@ namespace awkward {
           dynamic_cast<UnionArray8_32*>(other.get())  ||
           dynamic_cast<UnionArray8_U32*>(other.get())  ||
           dynamic_cast<UnionArray8_64*>(other.get())) {
+        // the first of the tail is asked to reverse_merge: it has to be
+        // the materialized array
+        tail.push_back(other);
+        i++;
         break;
-      }
-      else if (VirtualArray* raw = dynamic_cast<VirtualArray*>(other.get())) {
-        head.push_back(raw->array());
       }
       else {
         head.push_back(other);
